@@ -134,7 +134,15 @@ def run(pid, tier):
         rc = rustwl.prepare(check, tier, flavours=("dev",))
         results = common.pmap(rustwl.enc_worker, _tasks(rc, "dev", p, ["C17"]))
         tot = rustwl.merge(check, results, pid)
-        extra.update(_c17(check, rc, results, tot))
+        info = _c17(check, rc.live, results, "rust")
+        from . import pywl
+        pd = pywl.prepare(check, tier)
+        pp = pywl.tier_params(tier)
+        pres = common.pmap(pywl.worker, [{"di": i, "nv": pp["nv"], "nb": 0, "props": ["C17"]} for i in range(len(pd))])
+        pinfo = _c17(check, pd, pres, "python")
+        tot["evals"] += sum(r["evals"] for r in pres)
+        tot["nontrivial"] = info.pop("nontrivial") | pinfo.pop("nontrivial")
+        extra.update({"rust": info, "python": pinfo, "backends": ["rust", "python"]})
     else:
         raise SystemExit("unknown rust check " + pid)
     if rc.dropped:
@@ -143,10 +151,10 @@ def run(pid, tier):
     return check.finish(_coverage(pid, tot, extra), assumptions=ASSUME, min_evaluations=100)
 
 
-def _c17(check, rc, results, tot):
-    """compare twin encodings: results[i] belongs to rc.live[i]"""
+def _c17(check, descs, results, backend):
+    """compare twin encodings: results[i] belongs to descs[i]"""
     by_name = {}
-    for d, r in zip(rc.live, results):
+    for d, r in zip(descs, results):
         by_name[d["name"]] = (d, r)
     pairs = 0
     swapped_runs = 0
@@ -167,14 +175,14 @@ def _c17(check, rc, results, tot):
             b = bytes.fromhex(hx2)
             pred = swap_endianness(a, [Seg(o, n, "") for o, n in segs])
             if segs:
-                nontrivial.add(common.h(name, key[0], key[1][:2000]))
+                nontrivial.add(common.h(backend, name, key[0], key[1][:2000]))
                 swapped_runs += len(segs)
             if len(a) != len(b) or pred != b:
                 off = next((i for i in range(min(len(pred), len(b))) if pred[i] != b[i]), min(len(pred), len(b)))
                 what = "length" if len(a) != len(b) else "bytes"
-                check.violation("C17|rust|twin-%s-differ" % what, {
+                seg = next(("%dB-run" % n for o, n in segs if o <= off < o + n), "outside-any-run")
+                check.violation("C17|%s|twin-%s-differ|%s" % (backend, what, seg), {
                     "desc": name, "twin": d["twin"], "type": key[0], "value": json.loads(key[1]),
                     "little_endian_hex": hx, "big_endian_hex": hx2, "predicted_big_endian_hex": pred.hex(),
                     "first_diff": off, "pdl": d["text"]})
-    tot["nontrivial"] = nontrivial
-    return {"twin_pairs_compared": pairs, "reversed_runs_checked": swapped_runs, "backend": "rust"}
+    return {"twin_pairs_compared": pairs, "reversed_runs_checked": swapped_runs, "nontrivial": nontrivial}
